@@ -122,6 +122,28 @@ def _counts_strictly_greater(cx, b):
     return True, None
 
 
+def affine_sites(facts):
+    """-> ([(fn, site, raw callee)] of operator calls that scale / divide / negate a position, number of OPoint operator sites seen)"""
+    bad = []
+    nsites = 0
+    for body in E.user_bodies(facts):
+        for s in body.calls('*'):
+            name, raw = body.callee(s.data)
+            ti = trait_of_impl(raw) if raw else None
+            if not ti or ti[0] is None:
+                continue
+            tr, st = ti
+            st_is_point = st.lstrip('&').lstrip("'ab ").startswith(('parry2d_f64::nalgebra::OPoint', 'parry3d_f64::nalgebra::OPoint', 'nalgebra::OPoint')) or 'nalgebra::OPoint<' in st.split('<')[0] + '<'
+            trn = tr.split('<')[0].split('::')[-1]
+            if 'OPoint' in st.split('<')[0] or st_is_point:
+                nsites += 1
+                if trn in ('Mul', 'Div', 'Neg', 'MulAssign', 'DivAssign'):
+                    bad.append((body.name, s, raw))
+            elif st.strip() in ('f64',) and trn in ('Mul',) and 'OPoint' in tr:
+                bad.append((body.name, s, raw))
+    return bad, nsites
+
+
 EXACT = ('(call Unit::from_rotation_matrix (call Rotation::from_matrix_unchecked (call Matrix::from_columns $cols)))',
          '(call Unit::from_rotation_matrix (call Rotation::from_basis_unchecked $cols))',
          '(call Unit::from_basis_unchecked $cols)')
@@ -223,23 +245,7 @@ def run(cx):
               'iso2_from_basis: second column is the first rotated by +pi/2 (proper rotation)', where=b.file, found=r)
 
     # ---------------------------------------------------------------- AFFINE (crate-wide, expected count 0)
-    bad = []
-    nsites = 0
-    for body in E.user_bodies(cx.facts):
-        for s in body.calls('*'):
-            name, raw = body.callee(s.data)
-            ti = trait_of_impl(raw) if raw else None
-            if not ti or ti[0] is None:
-                continue
-            tr, st = ti
-            st_is_point = st.lstrip('&').lstrip("'ab ").startswith(('parry2d_f64::nalgebra::OPoint', 'parry3d_f64::nalgebra::OPoint', 'nalgebra::OPoint')) or 'nalgebra::OPoint<' in st.split('<')[0] + '<'
-            trn = tr.split('<')[0].split('::')[-1]
-            if 'OPoint' in st.split('<')[0] or st_is_point:
-                nsites += 1
-                if trn in ('Mul', 'Div', 'Neg', 'MulAssign', 'DivAssign'):
-                    bad.append((body.name, s, raw))
-            elif st.strip() in ('f64',) and trn in ('Mul',) and 'OPoint' in tr:
-                bad.append((body.name, s, raw))
+    bad, nsites = affine_sites(cx.facts)
     cx.floor('AFFINE', 'point-operator-sites', nsites, 100, 'resolved operator/trait calls on OPoint inspected')
     keys = sorted({b0 for b0, _, _ in bad})
     cx.ob('AFFINE', 'crate:no-scaled-positions', not bad,
@@ -345,3 +351,9 @@ def run(cx):
     b = cx.fn(f'{P3}::distance_to_point')
     if b:
         cx.expect('EXPR', 'Plane3::distance_to_point', cx.retval(b), '(call f64::abs (call *signed_distance_to_point (param self) (param point)))', 'distance = |signed distance|', where=b.file)
+
+
+def run_thorough(cx):
+    """thorough tier: the generic evaluators this property relies on must fire on their positive fixture twins"""
+    from rules import fixture_check as FX
+    FX.affine(cx)
